@@ -51,6 +51,31 @@ says whether the LAZY table writes a header that is not the header of its own fi
 BAM header this file wrote): ...:lazy-header-not-of-its-file (written header lines, and - refining the divergence
 "only the eager write fails" - the header the lazy write emitted).
 
+Formats the lazy/eager decision keeps eager (run_decision).  bnp.open(p) / bnp.open(p, lazy=True) give a lazy table
+only where NpDataclassReader._should_be_lazy (an anchor of the property) says so; GTF, GFF / GFF3 and multi-line FASTA
+are read eagerly whatever was asked for, because their buffers cannot serve the lazy class.  The default read and
+the lazy=True read of these formats must be indistinguishable from the lazy=False read as well, so they are in scope:
+gff (.gff), gff3 (.gff3: "##gff-version 3" pragma and "###" lines between the records), gtf (.gtf), fasta (.fa,
+sequences broken into lines of 4), fasta80 (.fasta, lines of 80), file A 4 records, file B 2; gff+hdr / gtf+hdr
+(different leading comment lines) for the second-file programs.  The same lock-step oracle and the same program
+families (every program of length 0-1 over the wide alphabet, length 2 / the 4-op pair family over the mini one,
+retained-table programs, second-file programs, sampled longer programs; whole and chunked read).  Where both reads
+are eager the programs are trivially equivalent; a change of the decision that makes one of these formats lazy
+although its buffer does not support it (e.g. a selection of a GFF table that writes all rows) is a divergence.
+
+Read / write / read on a row selection (run_rwr).  s = t[slice | mask | int list]; read field A of s; write s; read
+field B of s and of t.  The write may re-lay (compact) the raw buffer of the lazy table; what the first read
+memoised must not be used for the old layout afterwards.  For EVERY format above, every field A: [keep, t[X], get A,
+write] + the full observation of s (every field B, tolist, a second write) and of the retained t; every ordered
+pair A != B: [keep, t[X], get A, write, get B] (B read first after the write), [get A, keep, t[X], write, get B],
+[keep, t[X], get A, write, swapk, get B] (B of t first), [t[X], write, get A, write, get B] (which formats /
+selections: plan_rwr; BAM: every pair in the quick tier already).  The write of these programs is ["write", "go"]:
+when the write itself diverges (BAM, VCF, GFA: the eager write fails - a divergence of its own, reported as such)
+the history goes on, because a write leaves the eager table what it was; so what is read after the write is
+compared for these formats too.  In the signature of a divergence that needs such a write the selection and the
+field read before it are named by kind: <format>:idx>get>write=>observe:<divergence> is ONE class per format and
+kind of divergence (state memoised by a read, stale after the write), whatever field / selection shows it.
+
 Signatures.  A failing program is delta-minimised (ops deleted while the same divergence remains; each remaining op
 named by its most canonical variant that keeps the divergence) and the signature is
     <format>:<minimal program shape>[:chunked-only]=><place>:<divergence>
@@ -1170,6 +1195,19 @@ def collapsed_signature(env, div):
     return None
 
 
+def rwr_labels(mprog, labels):
+    """read / write / read family: in a minimal program that needs a ["write", "go"] the row selection and the field
+    read BEFORE that write are named by their kind ("idx", "get") whatever selection / field it is - state memoised
+    by a read and used after the write re-laid the buffer is one defect class per format and kind of divergence,
+    not one per field.  Programs without such a write (every program of the other families) keep their labels."""
+    last = max([i for i, o in enumerate(mprog) if is_go_write(o)], default=-1)
+    out = list(labels)
+    for i in range(min(last, len(out))):
+        if mprog[i][0] in ("get", "idx"):
+            out[i] = mprog[i][0]
+    return out
+
+
 def is_subsequence(small, big):
     it = iter(big)
     return all(any(x == y for y in it) for x in small)
@@ -1467,6 +1505,7 @@ class Runner:
                     mprog, canon, labels = minimise(env, prog, d)
                 except Exception:
                     mprog, canon, labels = body, body, [o[0] for o in body]
+                labels = rwr_labels(mprog, labels)
                 chunked_only = False
                 if is_hdr(fmt):   # does the plain file pair, read as a whole, show it as well?
                     try:
@@ -1481,6 +1520,9 @@ class Runner:
                 sig = signature(env, labels, d, chunked_only)
                 self.known[fm].append((mprog, d.key(), sig))
                 mcase = {"fmt": fmt, "mode": mode, "prog": canon, "minimal": mprog, "found_in": [list(o) for o in prog]}
+                if any(is_go_write(o) for o in canon):
+                    # the program goes on after a diverging write: replay looks for THIS divergence only
+                    mcase["divergence"] = [d.where, d.kind]
                 col.fail(sig, mcase, "step %d (%s): %s" % (d.step, d.op, d.detail))
                 continue
             col.fail(sig, case, "step %d (%s): %s" % (d.step, d.op, d.detail))
@@ -1665,6 +1707,239 @@ def run_second(col, r, tier):
     return info
 
 
+# ----------------------------------------------------------------------------------------------------------------
+# read / write / read interleavings on a row selection (run_rwr)
+# ----------------------------------------------------------------------------------------------------------------
+# s = t[row selection]; read field A of s; write s; read field B of s (and of t).  A write of a selection may
+# compact / re-lay the raw buffer of the lazy table; whatever was memoised by the first read (parsed columns,
+# offset tables of the buffer) must not be used for the old layout afterwards.  The write is ["write", "go"]: the
+# history goes on when the write itself diverges (for some formats the eager write fails, a divergence of its own).
+#   single : [keep, t[X], get A, write]                    + full observation of s (every field B, in declaration
+#                                                            order, tolist, a second write) and of the retained t
+#   pair   : [keep, t[X], get A, write, get B]             B read first after the write; every ordered pair A != B
+#   pair0  : [t[X], get A, write, get B]                   the same without the retained table (the wide formats)
+#   parent : [get A, keep, t[X], write, get B]             A was parsed in t, s inherits the parsed column
+#   old    : [keep, t[X], get A, write, swapk, get B]      B of t (the table s was selected from) first
+#   wrw    : [t[X], write, get A, write, get B]            a second write after the first read
+# over every field of the format (also the ones that cannot be replaced), X in slice / mask / int list.
+
+GO = ["write", "go"]
+RWR_SELECTIONS = ("m_alt", "s_tail", "i_rev")
+
+
+def rwr_programs(names, template, sel):
+    X = ["idx", sel]
+    if template == "single":
+        for a in names:
+            yield [K, X, ["get", a], GO]
+        return
+    for a, b in itertools.permutations(names, 2):
+        A, B = ["get", a], ["get", b]
+        if template == "pair":
+            yield [K, X, A, GO, B]
+        elif template == "pair0":
+            yield [X, A, GO, B]
+        elif template == "parent":
+            yield [A, K, X, GO, B]
+        elif template == "old":
+            yield [K, X, A, GO, ["swapk"], B]
+        elif template == "wrw":
+            yield [X, GO, A, GO, B]
+        else:
+            raise ValueError(template)
+
+
+RWR_SMALL = ("bed", "bdg", "sizes", "gfa", "wig", "csv", "fastq", "fasta2", "bed.gz", "gff", "fasta")   # <= 9 fields
+
+
+def plan_rwr(tier):
+    """-> (tasks in order of priority, seconds); task = (template, selection, fmt, mode)"""
+    every = ALL_FORMATS + ALL_DECISION_FORMATS
+    cs = {f: "chunk:%d" % chunk_sizes(f)[0] for f in every}
+    t = []
+    if tier == "quick":
+        t += [("single", "m_alt", f, "whole") for f in every]
+        t += [("pair", "s_tail", "bam", "whole")]
+        t += [("pair", "s_tail", f, "whole") for f in ("bed", "fastq", "fasta2", "sizes", "gfa", "csv", "fasta")]
+        t += [("single", x, "bam", "whole") for x in ("s_tail", "i_rev")]
+        return t, 8
+    rest = [f for f in every if f not in ("bam",) + RWR_SMALL]
+    t += [("single", x, f, "whole") for x in RWR_SELECTIONS for f in every]
+    t += [("pair", "s_tail", f, "whole") for f in ("bam",) + RWR_SMALL]
+    t += [("pair", x, "bam", "whole") for x in ("m_alt", "i_rev")]
+    t += [(tpl, "s_tail", "bam", "whole") for tpl in ("old", "parent", "wrw")]
+    t += [("single", x, f, cs[f]) for x in RWR_SELECTIONS[:2] for f in every]
+    t += [("pair0", "s_tail", f, "whole") for f in rest]
+    t += [("pair", "m_alt", f, "whole") for f in RWR_SMALL]
+    t += [(tpl, "s_tail", f, "whole") for tpl in ("old", "parent", "wrw") for f in RWR_SMALL]
+    t += [("pair", "s_tail", f, cs[f]) for f in ("bam",) + RWR_SMALL]
+    t += [("pair", "i_rev", f, "whole") for f in RWR_SMALL]
+    t += [("pair0", "m_alt", f, "whole") for f in rest]
+    return t, 36
+
+
+def run_rwr(col, r, tier):
+    tasks, seconds = plan_rwr(tier)
+    info = {"seconds": seconds, "tasks": [], "cut": [],
+            "programs": "single: [keep, t[X], get A, write] per field A; pair: [keep, t[X], get A, write, get B] per "
+                        "ordered pair of distinct fields (pair0: without keep); parent: [get A, keep, t[X], write, get B]; old: [keep, t[X], "
+                        "get A, write, swapk, get B]; wrw: [t[X], write, get A, write, get B]; X = mask / slice / int "
+                        "list; the write does not end the program when it diverges; always followed by the full "
+                        "observation of the selection and of the retained table"}
+    t0 = time.time()
+    stop = False
+    for template, sel, fmt, mode in tasks:
+        if stop:
+            info["cut"].append([template, sel, fmt, mode])
+            continue
+        contract = "read-write-read:%s" % ("whole" if mode == "whole" else "chunked")
+        try:
+            r.ops(fmt, mode, "mini")
+            names = [f for f, _ in r.fields[(fmt, mode)]]
+        except Exception:
+            continue   # the read itself fails: reported by the linear part / the decision part
+        n0 = col.evaluations
+        for prog in rwr_programs(names, template, sel):
+            r.evaluate(fmt, mode, [list(o) for o in prog], contract)
+            if time.time() - t0 > seconds:
+                stop = True
+                col.exhaustive = False
+                break
+        info["tasks"].append({"template": template, "selection": sel, "fmt": fmt, "mode": mode,
+                              "evaluated": col.evaluations - n0, "complete": not stop})
+    info["wall_s"] = round(time.time() - t0, 1)
+    return info
+
+
+# ----------------------------------------------------------------------------------------------------------------
+# formats the lazy/eager decision reads eagerly (DECISION_FORMATS): the same lock-step programs
+# ----------------------------------------------------------------------------------------------------------------
+DECISION_HDR_FORMATS = ["gff" + HDR, "gtf" + HDR]   # '#' comment lines before the first record, different in A and B
+DECISION_FAMILIES = ("gff", "gtf", "fasta")          # one format per buffer class
+
+
+def plan_decision(tier):
+    """-> (linear tasks (L, fmt, mode, level), further linear tasks run last, as far as the time goes, retained tasks
+    (family, which, fmt, mode), second-file tasks (level, fmt, mode), samples (fmt, mode, n, maxlen), seconds)"""
+    lin, ret, sec, samples, extra = [], [], [], [], []
+    for fmt in ALL_DECISION_FORMATS:
+        cs = ["chunk:%d" % c for c in chunk_sizes(fmt)]
+        if tier == "quick":
+            fam = fmt in DECISION_FAMILIES
+            lin += [(0, fmt, "whole", "wide"), (1, fmt, "whole", "wide" if fam else "core"),
+                    (0, fmt, cs[0], "core"), (1, fmt, cs[0], "core" if fam else "mini")]
+            if fam:
+                ret += [("core", "rep", fmt, "whole")]
+            if fmt in ("gff", "fasta"):
+                lin += [(4, fmt, "whole", "pair")]
+            samples += [(fmt, "whole", 4, 4), (fmt, cs[0], 2, 4)]
+        else:
+            fam = fmt in DECISION_FAMILIES
+            lin += [(0, fmt, m, "wide") for m in ["whole"] + cs] + [(1, fmt, "whole", "wide")]
+            lin += [(1, fmt, cs[0], "wide" if fam else "core"), (1, fmt, cs[1], "core")]
+            lin += [(2, fmt, "whole", "mini"), (4, fmt, "whole", "pair")]
+            if fam:
+                lin += [(2, fmt, cs[0], "mini"), (4, fmt, cs[0], "pair")]
+                extra += [(2, fmt, "whole", "core")]
+            ret += [("core", "kinds" if fam else "rep", fmt, "whole"), ("core", "rep", fmt, cs[0])]
+            if fam:
+                ret += [("chain", "rep", fmt, "whole")]
+            samples += [(fmt, m, 12, 6) for m in ["whole"] + cs[:1]]
+    lin.sort(key=lambda t: (t[0], t[3] != "pair"))
+    for fmt in DECISION_HDR_FORMATS:
+        sec += [("one", fmt, "seq:read>read:AB"), ("mini", fmt, "seq:read>read:BA")]
+        if tier != "quick":
+            sec += [("mini", fmt, m) for m in SEQ_MAIN[2:]]
+    extra += [(3, "gff", "whole", "mini")] if tier != "quick" else []
+    return lin, extra, ret, sec, samples, (9 if tier == "quick" else 22)
+
+
+def run_decision(col, r, tier):
+    """the linear, retained, second-file and sampled programs over the formats that the reader's decision keeps
+    eager, within their own budget; the sampled programs use their own random stream"""
+    lin, extra, ret, sec, samples, seconds = plan_decision(tier)
+    info = {"formats": ALL_DECISION_FORMATS, "formats_with_header_lines": DECISION_HDR_FORMATS, "seconds": seconds,
+            "chunk_sizes": {f: chunk_sizes(f) for f in ALL_DECISION_FORMATS},
+            "records": "file A 4, file B 2, chunked file 6 (A+B)",
+            "exhaustive": [], "retained": [], "second_file": [], "sampled": [], "cut": []}
+    t0 = time.time()
+    over = lambda share=1.0: time.time() - t0 > share * seconds
+
+    def linear(tasks, share):
+        for L, fmt, mode, level in tasks:
+            contract = "decision:lockstep:%s" % ("whole" if mode == "whole" else "chunked")
+            try:
+                ops = r.ops(fmt, mode, level)
+            except Exception as e:
+                case = {"fmt": fmt, "mode": mode, "prog": []}
+                col.case(case, contract="read")
+                col.fail("%s:eager-read-fails:%s" % (fmt, type(e).__name__), case, str(e)[:300])
+                continue
+            if over(share):
+                col.exhaustive = False
+                info["cut"].append([L, fmt, mode, level])
+                continue
+            n0 = col.evaluations
+            complete = True
+            for prog in (pair_programs(ops) if level == "pair" else itertools.product(ops, repeat=L)):
+                if not redundant(prog):
+                    r.evaluate(fmt, mode, [list(o) for o in prog], contract)
+                    if col.evaluations % 20 == 0 and over(share):
+                        complete = False
+                        col.exhaustive = False
+                        break
+            info["exhaustive"].append({"len": L, "fmt": fmt, "mode": mode, "alphabet": level, "n_ops": len(ops),
+                                       "evaluated": col.evaluations - n0, "complete": complete})
+
+    linear(lin, 0.7)
+    for family, which, fmt, mode in ret:
+        if over(0.8) or (fmt, mode) not in r.fields:
+            col.exhaustive = False
+            info["cut"].append([family, which, fmt, mode])
+            continue
+        n0 = col.evaluations
+        for prog in retained_programs(r.fields[(fmt, mode)], family, which):
+            r.evaluate(fmt, mode, [list(o) for o in prog], "decision:lockstep-retained")
+        info["retained"].append({"family": family, "fields": which, "fmt": fmt, "mode": mode,
+                                 "evaluated": col.evaluations - n0})
+    for level, fmt, mode in sec:
+        if over(0.9):
+            col.exhaustive = False
+            info["cut"].append([level, fmt, mode])
+            continue
+        try:
+            if (fmt, mode) not in r.fields:
+                r.fields[(fmt, mode)] = field_names(r.env(fmt, mode))
+                r.no_item[(fmt, mode)] = False
+        except Exception as e:
+            case = {"fmt": fmt, "mode": mode, "prog": []}
+            col.case(case, contract="read")
+            col.fail("%s:second-file:eager-read-fails:%s" % (plain(fmt), type(e).__name__), case, str(e)[:300])
+            continue
+        n0 = col.evaluations
+        for prog in second_programs(r.fields[(fmt, mode)], level):
+            r.evaluate(fmt, mode, [list(o) for o in prog], "decision:second-file")
+        info["second_file"].append({"level": level, "fmt": fmt, "mode": mode, "evaluated": col.evaluations - n0})
+    import random
+    rng = random.Random("C05-decision-%s" % col.seed)
+    for fmt, mode, n, maxlen in samples:
+        if over():
+            col.exhaustive = False
+            break
+        try:
+            wide = r.ops(fmt, mode, "wide")
+        except Exception:
+            continue
+        n0 = col.evaluations
+        for _ in range(n):
+            prog = [list(rng.choice(wide)) for _ in range(rng.randint(3, maxlen))]
+            r.evaluate(fmt, mode, prog, "decision:lockstep-sampled")
+        info["sampled"].append({"fmt": fmt, "mode": mode, "n": col.evaluations - n0, "len": "3..%d" % maxlen})
+    linear(extra, 1.0)   # the longer exhaustive products: as far as the time goes
+    info["wall_s"] = round(time.time() - t0, 1)
+    return info
+
+
 def run(tier="quick", seed=0):
     col = Collector(PID, tier, seed,
                     "every program (sequence of public ops: len, get f, t[slice|mask|int list], t[i], concatenate tu/ut/tt/tut, "
@@ -1680,7 +1955,11 @@ def run(tier="quick", seed=0):
                     "with different header / comment lines read one after the other in this process (read, one "
                     "read_chunk, all read_chunks, two open readers interleaved; both orders), programs of at most "
                     "one op (two, thorough) on the table read second / the table read first, the header observed "
-                    "through the written bytes.  distinct = distinct (format, read mode, "
+                    "through the written bytes.  Formats that the reader's lazy/eager decision reads eagerly (gff, "
+                    "gff3, gtf, multi-line fasta): the same program families, default / lazy=True read against the "
+                    "lazy=False read.  Read/write/read: s = t[rows]; get A; write (the program goes on if the write "
+                    "diverges); get B of s / of t - per field A with the full observation, per ordered pair (A, B).  "
+                    "distinct = distinct (format, read mode, "
                     "program); non-trivial = program of length >= 1",
                     budget_s=(66 if tier == "quick" else 585))
     import logging
@@ -1735,6 +2014,10 @@ def run(tier="quick", seed=0):
                 prog = [list(col.rng.choice(wide)) for _ in range(col.rng.randint(3, maxlen))]
                 r.evaluate(fmt, mode, prog, "lockstep-sampled")
             bounds["sampled"].append({"fmt": fmt, "mode": mode, "n": col.evaluations - n0, "len": "3..%d" % maxlen})
+        # the parts added later run last, within their own budgets (the budget, the programs and the sampled
+        # programs of the parts above are what they were)
+        bounds["decision_formats"] = run_decision(col, r, tier)
+        bounds["read_write_read"] = run_rwr(col, r, tier)
         bounds["outcomes"] = dict(r.stats)
     col.bounds = bounds
     return col.result()
@@ -1744,6 +2027,11 @@ def replay(case):
     with TmpDir() as tmp:
         env = Env(tmp, case["fmt"], case["mode"])
         status, divs = run_program(env, [list(o) for o in case["prog"]])
+    if "divergence" in case:   # a program that goes on after a diverging ["write", "go"]: only the recorded divergence counts
+        others = [d for d in divs if [d.where, d.kind] != list(case["divergence"])]
+        divs = [d for d in divs if [d.where, d.kind] == list(case["divergence"])]
+        if not divs:
+            return True, "ok (%s; %d other divergences of the program, reported under their own signatures)" % (status, len(others))
     if divs:
         return False, "; ".join("step %d %s %s: %s" % (d.step, d.where, d.kind, d.detail) for d in divs)
     return True, "ok (%s)" % status
